@@ -129,7 +129,14 @@ def check(ctx, facts, cfg):
             c = body.canon_rv(st['rv'])
             try:
                 v = c[3][0][1]
-                ok_val[b] = bool(v[1]) if v[0] == 'const' else None
+                if v[0] == 'const':
+                    ok_val[b] = bool(v[1])
+                else:
+                    neg = False
+                    while v[0] == 'un' and v[1] == 'Not':
+                        neg, v = (not neg), v[2]
+                    a = atom_of(body, v, o, r)
+                    ok_val[b] = ('atom', a, neg) if (a is not None and a[0] == 'rel') else None
             except Exception:
                 ok_val[b] = None
     if not ok_val:
@@ -169,6 +176,12 @@ def check(ctx, facts, cfg):
             steps += 1
             if b in ok_val:
                 got = ok_val[b]
+                if isinstance(got, tuple):
+                    _, a, neg = got
+                    ordv = np if a[2] == 'npo2' else idr
+                    if a[3]:
+                        ordv = FLIP[ordv]
+                    got = eval_rel(a[1], ordv) != neg
                 break
             t = body.term(b)
             if t['k'] == 'switch':
